@@ -18,6 +18,8 @@ preserve the meaning of the function exactly:
 Anything else is left as it is (the rule then sees a call it does not understand and reports analysis-broken as before); the kernel
 never guesses.  `normalise(prog, f)` returns f itself when nothing applied."""
 import copy
+import os
+import sys
 from . import sx as SX
 
 SCALARS = ('double', 'float', 'int', 'bool', 'unsigned long', 'size_t', 'std::size_t', 'long', 'unsigned int', 'char', 'long long')
@@ -929,3 +931,378 @@ def normalise(prog, f, depth=3, keep=(), only=None):
             res.lambdas = f.lambdas
     cache[ck] = res
     return res
+
+
+# ---- dispatch tables of member pointers ------------------------------------------------------------------------------------------
+def unroll_memptr_tables(prog, f):
+    """`for (const auto& row : kTable) { if (name != row.name) continue; …; (obj.*row.fn)(args); return; }` over a constant
+    namespace-scope array of records, where the body calls or accesses through a member pointer taken from the row: the loop is
+    replaced by one copy of its body per row with the row's constants substituted — `row.name` becomes the string, a test of a
+    member pointer is decided (`&C::m` is non-null, `nullptr` is null) and `(obj.*&C::m)(args)` becomes the ordinary call
+    `obj.m(args)`.  What remains is the if-chain the table stands for.  Returns the new body, or None when nothing applies."""
+    if not f.body:
+        return None
+    if not any(n.get('k') == 'bin' and n.get('op') in ('.*', '->*') for n in SX.walk(f.body)):
+        return None
+    done = [0]
+    finders = _finders(prog)
+
+    def rows_of(rng):
+        rng = SX.strip(rng)
+        if not (SX.is_node(rng) and rng.get('k') == 'ref' and rng.get('global')):
+            return None
+        gls = [gl for (nm, fl, ln), gl in prog.facts.globals.items() if nm == rng['name'] and gl.get('const') and SX.is_node(gl.get('init'))]
+        if len(gls) != 1:
+            return None
+        init = SX.strip(gls[0]['init'])
+        if init.get('k') != 'initlist':
+            return None
+        rows = []
+        for r in init.get('items', []):
+            r = SX.strip(r)
+            if not (SX.is_node(r) and r.get('k') == 'initlist' and r.get('fields') and len(r['fields']) == len(r.get('items', []))):
+                return None
+            if not all(pure(it) for it in r['items']):
+                return None
+            rows.append(dict(zip(r['fields'], r['items'])))
+        return rows or None
+
+    def subst_row(n, vid, row, bad):
+        if isinstance(n, list):
+            return [subst_row(x, vid, row, bad) for x in n]
+        if not isinstance(n, dict):
+            return n
+        if n.get('k') == 'member' and SX.is_node(SX.strip(n.get('base'))) and SX.strip(n['base']).get('k') == 'ref' and SX.strip(n['base']).get('id') == vid:
+            if n.get('name') in row:
+                return copy.deepcopy(row[n['name']])
+            bad.append(1)
+            return n
+        if n.get('k') == 'ref' and n.get('id') == vid:
+            bad.append(1)
+            return n
+        return {k: subst_row(v, vid, row, bad) for k, v in n.items()}
+
+    def memptr_const(e):
+        """True / False for a constant member pointer (non-null / null), None otherwise"""
+        e = SX.strip(e)
+        while SX.is_node(e) and e.get('k') == 'cast':
+            e = SX.strip(e['e'])
+        if not SX.is_node(e):
+            return None
+        if e.get('k') == 'nullptr':
+            return False
+        if e.get('k') == 'un' and e.get('op') == '&' and SX.is_node(SX.strip(e['e'])) and SX.strip(e['e']).get('k') == 'ref' and '::*' in (e.get('t') or ''):
+            return True
+        if e.get('k') == 'un' and e.get('op') == '!':
+            v = memptr_const(e['e'])
+            return None if v is None else (not v)
+        cp = SX.cmp_parts(e)
+        if cp and cp[0] in ('==', '!='):
+            a, b = memptr_const(cp[1]), memptr_const(cp[2])
+            if a is not None and b is not None and (a is False or b is False):
+                return (a == b) == (cp[0] == '==')
+        return None
+
+    def fold(n):
+        """decide tests of constant member pointers; turn calls through a constant member-function pointer into ordinary calls"""
+        if isinstance(n, list):
+            out = []
+            for x in n:
+                y = fold(x)
+                if isinstance(y, dict) and y.get('k') == '__splice':
+                    out.extend(y['body'])
+                else:
+                    out.append(y)
+            return out
+        if not isinstance(n, dict):
+            return n
+        n = {k: fold(v) if isinstance(v, (dict, list)) else v for k, v in n.items()}
+        if n.get('k') == 'if' and not n.get('init') and not n.get('cv'):
+            v = memptr_const(n.get('c'))
+            if v is not None:
+                br = n.get('t') if v else n.get('e')
+                return br if br is not None else {'k': 'null', 'ln': n.get('ln')}
+        if n.get('k') == 'cond':
+            v = memptr_const(n.get('c'))
+            if v is not None:
+                return n['t'] if v else n['f']
+        if n.get('k') == 'call' and not n.get('callee') and SX.is_node(n.get('calleeExpr')):
+            ce = SX.strip(n['calleeExpr'])
+            if SX.is_node(ce) and ce.get('k') == 'bin' and ce.get('op') in ('.*', '->*'):
+                r = SX.strip(ce['r'])
+                while SX.is_node(r) and r.get('k') == 'cast':
+                    r = SX.strip(r['e'])
+                if SX.is_node(r) and r.get('k') == 'un' and r.get('op') == '&' and SX.strip(r['e']).get('k') == 'ref' and SX.strip(r['e']).get('kind') == 'fn':
+                    name = SX.strip(r['e'])['name']
+                    cands = [t for t in prog.by_name.get(name, []) if len(t.params) == len(n.get('args', []))]
+                    m = {'k': 'mcall', 'callee': name, 'obj': ce['l'], 'args': n.get('args', []), 't': n.get('t'), 'ln': n.get('ln'), 'col': n.get('col'),
+                         'arrow': ce['op'] == '->*', 'inroot': True, 'ot': ce.get('lt')}
+                    if len(cands) == 1:
+                        m['sig'] = cands[0].sig
+                        if cands[0].d.get('virtual'):
+                            m['virtual'] = True
+                    return m
+        if n.get('k') == 'bin' and n.get('op') in ('.*', '->*'):
+            r = SX.strip(n['r'])
+            if SX.is_node(r) and r.get('k') == 'un' and r.get('op') == '&' and SX.strip(r['e']).get('k') == 'ref' and SX.strip(r['e']).get('kind') != 'fn':
+                # data member through a constant pointer: `v.*&S::major` is `v.major`
+                return {'k': 'member', 'base': n['l'], 'name': SX.strip(r['e'])['name'].split('::')[-1], 'arrow': n['op'] == '->*', 't': n.get('t'), 'ln': n.get('ln'),
+                        'col': n.get('col'), 'q': SX.strip(r['e']).get('q') or SX.strip(r['e'])['name']}
+        return n
+
+    def guard_continue(body):
+        """`if (c) continue; REST` at the top level of an iteration → `if (!c) { REST }`; any other continue/break → None"""
+        st = body.get('body') if body.get('k') == 'block' else [body]
+        out = []
+        for i, s in enumerate(st):
+            if s.get('k') == 'if' and not s.get('e') and not s.get('init') and not s.get('cv'):
+                t = s.get('t')
+                if SX.is_node(t) and t.get('k') == 'block' and len(t.get('body', [])) == 1:
+                    t = t['body'][0]
+                if SX.is_node(t) and t.get('k') == 'continue':
+                    rest = guard_continue({'k': 'block', 'body': st[i + 1:], 'ln': s.get('ln')})
+                    if rest is None:
+                        return None
+                    c0 = SX.strip(s['c'])
+                    if SX.is_node(c0) and c0.get('k') == 'un' and c0.get('op') == '!':
+                        neg = c0['e']
+                    else:
+                        neg = {'k': 'un', 'op': '!', 'e': s['c'], 't': 'bool', 'postfix': False, 'ln': s.get('ln'), 'col': s.get('col')}
+                    out.append({'k': 'if', 'c': neg, 't': {'k': 'block', 'body': rest, 'ln': s.get('ln')}, 'e': None, 'init': None, 'ln': s.get('ln'), 'col': s.get('col')})
+                    return out
+            if _has_loop_jump(s):
+                return None
+            out.append(s)
+        return out
+
+    def _has_loop_jump(s, inner=False):
+        if not isinstance(s, dict):
+            return False
+        k = s.get('k')
+        if k == 'lambda':
+            return False
+        if k in ('continue', 'break') and not inner:
+            return True
+        if k in ('for', 'while', 'do', 'forrange', 'switch'):
+            # jumps inside a nested loop/switch belong to it (a `continue` inside a switch does not, but tables bodies are small:
+            # be conservative)
+            if k == 'switch':
+                return any(x.get('k') == 'continue' for x in SX.walk(s, into_lambdas=False))
+            return False
+        for v in s.values():
+            if isinstance(v, dict) and _has_loop_jump(v, inner):
+                return True
+            if isinstance(v, list) and any(_has_loop_jump(x, inner) for x in v):
+                return True
+        return False
+
+    def rw(n):
+        if isinstance(n, list):
+            out = []
+            for x in n:
+                y = rw(x)
+                if isinstance(y, dict) and y.get('k') == '__splice':
+                    out.extend(y['body'])
+                else:
+                    out.append(y)
+            return out
+        if not isinstance(n, dict) or n.get('k') == 'lambda':
+            return n
+        n2 = {k: rw(v) if isinstance(v, (dict, list)) else v for k, v in n.items()}
+        for k_, v_ in list(n2.items()):
+            if isinstance(v_, dict) and v_.get('k') == '__splice':
+                n2[k_] = {'k': 'block', 'body': v_['body'], 'ln': v_.get('ln')}
+        if n2.get('k') != 'forrange':
+            return n2
+        vid = n2['var'].get('id')
+        uses = [x for x in SX.walk(n2['body']) if x.get('k') == 'bin' and x.get('op') in ('.*', '->*')
+                and any(y.get('k') == 'ref' and y.get('id') == vid for y in SX.walk(x['r']))]
+        if not uses:
+            return n2
+        rows = rows_of(n2['range'])
+        if rows is None or len(rows) > 64:
+            return n2
+        body = guard_continue(n2['body'] if n2['body'].get('k') == 'block' else {'k': 'block', 'body': [n2['body']], 'ln': n2.get('ln')})
+        if body is None:
+            return n2
+        out = []
+        for i, row in enumerate(rows):
+            bad = []
+            tag = '@r%d' % i
+            idmap = {x['id']: x['id'] + tag for x in SX.walk(body) if x.get('k') == 'var' and x.get('id')}
+            cl = fold(subst_row(_clone(body, idmap, {}), vid, row, bad))
+            if bad:
+                return n2
+            out.append({'k': 'block', 'body': cl, 'ln': n2.get('ln'), 'col': n2.get('col'), 'row': i})
+        done[0] += 1
+        return {'k': '__splice', 'body': out, 'ln': n2.get('ln')}
+
+    def null_const(e, gid, isnull):
+        """truth value of a test of the row pointer g, once g is known to be null / a row"""
+        e = SX.strip(e)
+        while SX.is_node(e) and e.get('k') == 'cast':
+            e = SX.strip(e['e'])
+        if not SX.is_node(e):
+            return None
+        if e.get('k') == 'ref' and e.get('id') == gid:
+            return not isnull
+        if e.get('k') == 'un' and e.get('op') == '!':
+            v = null_const(e['e'], gid, isnull)
+            return None if v is None else (not v)
+        cp = SX.cmp_parts(e)
+        if cp and cp[0] in ('==', '!='):
+            for a, b in ((cp[1], cp[2]), (cp[2], cp[1])):
+                a, b = SX.strip(a), SX.strip(b)
+                if SX.is_node(a) and a.get('k') == 'ref' and a.get('id') == gid and SX.is_node(b) and b.get('k') == 'nullptr':
+                    return isnull == (cp[0] == '==')
+        return None
+
+    def fold_g(n, gid, isnull, row, bad):
+        """REST with the row pointer g resolved: g->field → the row's constant, tests of g decided, dead tails dropped"""
+        if isinstance(n, list):
+            out = []
+            for x in n:
+                y = fold_g(x, gid, isnull, row, bad)
+                if isinstance(y, dict) and y.get('k') == 'null':
+                    continue
+                out.append(y)
+                if isinstance(y, dict) and (y.get('k') in ('return', 'ireturn', 'continue', 'break') or
+                                            (y.get('k') == 'expr' and SX.is_node(SX.strip(y.get('e'))) and SX.strip(y['e']).get('k') == 'throw')):
+                    break            # what follows an unconditional jump is dead
+            return out
+        if not isinstance(n, dict):
+            return n
+        if n.get('k') == 'lambda':
+            if any(x.get('k') == 'ref' and x.get('id') == gid for x in SX.walk(n)):
+                bad.append('captured')
+            return n
+        if n.get('k') == 'if' and not n.get('init') and not n.get('cv'):
+            v = null_const(n.get('c'), gid, isnull)
+            if v is not None:
+                br = n.get('t') if v else n.get('e')
+                return fold_g(br, gid, isnull, row, bad) if br is not None else {'k': 'null', 'ln': n.get('ln')}
+        if n.get('k') == 'member' and SX.is_node(SX.strip(n.get('base'))) and SX.strip(n['base']).get('k') == 'ref' and SX.strip(n['base']).get('id') == gid:
+            if isnull:
+                bad.append('deref of null')
+                return n
+            if n.get('name') in row:
+                return copy.deepcopy(row[n['name']])
+            bad.append('field')
+            return n
+        if n.get('k') == 'ref' and n.get('id') == gid:
+            bad.append('escapes')
+            return n
+        out = {k: fold_g(v, gid, isnull, row, bad) if isinstance(v, (dict, list)) else v for k, v in n.items()}
+        if out.get('k') == 'block' and isinstance(out.get('body'), list) and len(out['body']) == 1 and isinstance(out['body'][0], dict) and out['body'][0].get('k') == 'block':
+            return out['body'][0]
+        return out
+
+    def split(n):
+        """`const Row* g = find(x); REST` → `if (c₁) { REST[g := row₁] } else if … else { REST[g := null] }`"""
+        if isinstance(n, list):
+            lst = [split(x) for x in n]
+            for i, s_ in enumerate(lst):
+                if not (isinstance(s_, dict) and s_.get('k') == 'decls' and len(s_['d']) == 1):
+                    continue
+                v = s_['d'][0]
+                init = SX.strip(v.get('init')) if SX.is_node(v.get('init')) else None
+                if not (SX.is_node(init) and init.get('k') == 'call' and init.get('callee') in finders and (v.get('type') or '').rstrip().endswith('*')):
+                    continue
+                F, rows, vid, cond = finders[init['callee']]
+                args = _all_args(init)
+                if len(args) != len(F.params) or not all(pure(a) for a in args):
+                    continue
+                gid = v['id']
+                rest = lst[i + 1:]
+                restb = {'k': 'block', 'body': rest}
+                if any(SX.write_target(x) and SX.is_node(SX.strip(SX.write_target(x)[0])) and SX.strip(SX.write_target(x)[0]).get('id') == gid for x in SX.walk(restb)):
+                    continue
+                if not any(x.get('k') == 'bin' and x.get('op') in ('.*', '->*') and any(y.get('k') == 'ref' and y.get('id') == gid for y in SX.walk(x['r'])) for x in SX.walk(restb)):
+                    continue
+                sub = {p_['id']: a for p_, a in zip(F.params, args) if p_.get('id')}
+                chain = None
+                bad = []
+                branches = []
+                for ri, row in enumerate(rows):
+                    tag = '@r%d' % ri
+                    idmap = {x['id']: x['id'] + tag for x in SX.walk(restb) if x.get('k') == 'var' and x.get('id')}
+                    c_i = subst_row(_clone(cond, {}, sub), vid, row, bad)
+                    body_i = fold(fold_g(_clone(rest, idmap, {}), gid, False, row, bad))
+                    branches.append((c_i, body_i))
+                idmap = {x['id']: x['id'] + '@r_' for x in SX.walk(restb) if x.get('k') == 'var' and x.get('id')}
+                tail = fold_g(_clone(rest, idmap, {}), gid, True, {}, bad)
+                if bad:
+                    if os.environ.get('BLOCHSA_DEBUG'):
+                        print('split rejected:', bad[:5], file=sys.stderr)
+                    continue
+                chain = {'k': 'block', 'body': tail, 'ln': s_.get('ln')} if tail else None
+                for c_i, body_i in reversed(branches):
+                    chain = {'k': 'if', 'c': c_i, 't': {'k': 'block', 'body': body_i, 'ln': s_.get('ln')}, 'e': chain, 'init': None, 'ln': s_.get('ln'), 'col': s_.get('col')}
+                done[0] += 1
+                return lst[:i] + [chain]
+            return lst
+        if not isinstance(n, dict) or n.get('k') == 'lambda':
+            return n
+        return {k: split(v) if isinstance(v, (dict, list)) else v for k, v in n.items()}
+
+    nb = rw(f.body)
+    if finders:
+        nb2 = split(nb)
+        if done[0]:
+            nb = nb2
+    if not done[0]:
+        return None
+    if isinstance(nb, dict) and nb.get('k') == '__splice':
+        nb = {'k': 'block', 'body': nb['body'], 'ln': f.body.get('ln')}
+    return nb
+
+
+def _finders(prog):
+    """row-finder functions: `for (const auto& row : kTable) if (COND) return &row;  return nullptr;` over a constant table whose
+    rows hold member pointers → {function name: (function, rows, loop variable id, COND)}"""
+    c = getattr(prog, '_memptr_finders', None)
+    if c is not None:
+        return c
+    out = {}
+    for F in prog.functions:
+        if F.kind != 'function' or not F.body or not (F.ret or '').rstrip().endswith('*'):
+            continue
+        st = F.body.get('body') if F.body.get('k') == 'block' else None
+        if not st or len(st) != 2 or st[0].get('k') != 'forrange' or st[1].get('k') != 'return' or SX.strip(st[1].get('e') or {}).get('k') != 'nullptr':
+            continue
+        lp = st[0]
+        rng = SX.strip(lp['range'])
+        if not (SX.is_node(rng) and rng.get('k') == 'ref' and rng.get('global')):
+            continue
+        gls = [gl for (nm, fl, ln), gl in prog.facts.globals.items() if nm == rng['name'] and gl.get('const') and SX.is_node(gl.get('init'))]
+        if len(gls) != 1 or SX.strip(gls[0]['init']).get('k') != 'initlist':
+            continue
+        rows = []
+        okr = True
+        for r in SX.strip(gls[0]['init']).get('items', []):
+            r = SX.strip(r)
+            if not (SX.is_node(r) and r.get('k') == 'initlist' and r.get('fields') and len(r['fields']) == len(r.get('items', [])) and all(pure(it) for it in r['items'])):
+                okr = False
+                break
+            rows.append(dict(zip(r['fields'], r['items'])))
+        if not okr or not rows or len(rows) > 64:
+            continue
+        if not any(SX.is_node(SX.strip(it)) and SX.strip(it).get('k') == 'un' and '::*' in (SX.strip(it).get('t') or '') for row in rows for it in row.values()):
+            continue        # only tables that hold member pointers
+        b = lp['body']
+        if b.get('k') == 'block' and len(b.get('body', [])) == 1:
+            b = b['body'][0]
+        if b.get('k') != 'if' or b.get('e') or b.get('init') or b.get('cv'):
+            continue
+        t = b['t']
+        if t.get('k') == 'block' and len(t.get('body', [])) == 1:
+            t = t['body'][0]
+        rv = SX.strip(t.get('e')) if t.get('k') == 'return' and SX.is_node(t.get('e')) else None
+        vid = lp['var'].get('id')
+        if not (SX.is_node(rv) and rv.get('k') == 'un' and rv.get('op') == '&' and SX.strip(rv['e']).get('k') == 'ref' and SX.strip(rv['e']).get('id') == vid):
+            continue
+        if not pure(b['c']):
+            continue
+        out[F.name] = (F, rows, vid, b['c'])
+    prog._memptr_finders = out
+    return out
